@@ -324,8 +324,7 @@ func (m *mon) commentsJob(cases []commentCase) func(j job) outcome {
 			// the comment-free statement itself does not survive print + parse: a defect of the printer that has nothing
 			// to do with comments; it is judged by the round-trip oracles (1)-(3) on R and reported under their signatures
 			o.count("comments_base_statement_does_not_round_trip_judged_by_roundtrip_oracles")
-			ro := m.roundTrip(job{kind: "roundtrip", origin: "comments-stripped", text: R, tag: "comments-stripped"})
-			o.findings = append(o.findings, ro.findings...)
+			o.findings = append(o.findings, m.delegateToRoundTrip(R, tR)...)
 			return
 		}
 		if err != nil {
@@ -341,8 +340,7 @@ func (m *mon) commentsJob(cases []commentCase) func(j job) outcome {
 				return
 			} else {
 				o.count("comments_base_statement_does_not_round_trip_judged_by_roundtrip_oracles")
-				ro := m.roundTrip(job{kind: "roundtrip", origin: "comments-stripped", text: R, tag: "comments-stripped"})
-				o.findings = append(o.findings, ro.findings...)
+				o.findings = append(o.findings, m.delegateToRoundTrip(R, tR)...)
 				return
 			}
 		}
@@ -593,4 +591,17 @@ func commentGuards(r *ev.Run) {
 	r.RequireAtLeast("comments_mysql_rewritten_judged", int64(r.Pick(200, 3000)))
 	r.RequireAtLeast("comments_pg_rewritten_judged", int64(r.Pick(100, 1500)))
 	r.RequireAtLeast("comments_reference_scanner_confirmed_by_postgresql_scanner", int64(r.Pick(800, 12000)))
+}
+
+// delegateToRoundTrip judges the comment-free reading R with the round-trip oracles (1)-(3); the signatures name the
+// fragile construct found in the tree (hazards) and where the statement came from.
+func (m *mon) delegateToRoundTrip(R string, tR sqlparser.Statement) []finding {
+	ro := m.roundTrip(job{kind: "roundtrip", origin: "comments-stripped", text: R, tag: "comments-stripped"})
+	for i := range ro.findings {
+		if !strings.Contains(ro.findings[i].sig, " cause=") {
+			ro.findings[i].sig += " cause=" + hazards(tR)
+		}
+		ro.findings[i].sig += " origin=comment-free-reading"
+	}
+	return ro.findings
 }
